@@ -239,10 +239,13 @@ def replay_once(stage, path):
         return j["classes"], j["event_hash"], j
     return [classify_log(err, rc)], "dead", {"log_tail": err[-2000:]}
 
-def minimise_and_confirm(prop, cls, stage, viol_file, replay_dir):
+def minimise_and_confirm(prop, cls, stage, viol_file, replay_dir, prev_file=None):
     os.makedirs(replay_dir, exist_ok=True)
     tmp = os.path.join(os.path.dirname(viol_file), "min-%s-%s.json" % (prop, re.sub(r"[^A-Za-z0-9]+", "_", cls)))
     rc, out, err = run_tool(stage, ["--minimise", viol_file, "--class", cls, "--out", tmp, "--budget", os.environ.get("VERIF_MIN_BUDGET", "400")], timeout=1800)
+    if (rc != 0 or not os.path.exists(tmp)) and cls == "lsan:leak" and prev_file and os.path.exists(prev_file):
+        # LeakSanitizer may notice a block one run late (a stale pointer kept it reachable): try the run before
+        rc, out, err = run_tool(stage, ["--minimise", prev_file, "--class", cls, "--out", tmp, "--budget", os.environ.get("VERIF_MIN_BUDGET", "400")], timeout=1800)
     if rc != 0 or not os.path.exists(tmp):
         # the violation did not reproduce in a child process: nondeterminism in the harness, never a report
         harness_error("violation %s of %s did not reproduce during minimisation (rc=%s): %s %s" % (cls, prop, rc, out[-500:], err[-1500:]))
@@ -308,7 +311,7 @@ def check_property(prop, tier, seed, stages=None, extra_cov=None, class_filter=N
         vs.sort(key=lambda v: v[3]["i"])
         v = vs[0]
         if not v[2]: harness_error("violation without a case file")
-        final, rep = minimise_and_confirm(prop, cls, v[1], v[2], os.environ.get("VERIF_REPLAYS", os.path.join(VERIF, "replays")))
+        final, rep = minimise_and_confirm(prop, cls, v[1], v[2], os.environ.get("VERIF_REPLAYS", os.path.join(VERIF, "replays")), v[3].get("viol_file_prev"))
         reported.append((cls, final, len(vs), rep))
     wall = time.time() - t_start
     write_evidence(prop, tier, seed, all_results, stage_info, reported, known_hits, wall, bt, gate_total, crash_other, extra_cov)
